@@ -68,7 +68,7 @@ class SnapshotMonitor:
 def plan(tier: str) -> dict:
     quick = tier == "quick"
     return {
-        "cases": 2400 if quick else 60000,
+        "cases": 2400 if quick else 140000,
         "shards": 16,
         "budget_s": 35 if quick else 540,
         "floors": {"raising_calls_judged": 6000 if quick else 200000, "judged:sort(nested,cyclic)": 300 if quick else 20000},
